@@ -42,6 +42,7 @@ pub fn meta(tier: Tier) -> Meta {
             "tree_blocks_all_valid": if tier.is_thorough() { 5 } else { 4 },
             "invalid_kinds": ["Dao(contextual)", "TwoCellbases(non-contextual)", "Unproposed(contextual)"],
             "duplicate_patterns": 3,
+            "orphan_subtree_family": "every tree of 5 (thorough 6) blocks hanging under one block, that block delivered last after every permutation of the others",
             "gate_pattern": "trees of up to 3 blocks, every labelling and permutation: the service thread is held inside search_orphan_leader (between its two reads) until the verifier has finished the leader",
             "family_D": "dynamic-difficulty world, branches A (fast, 4x per-block difficulty in epoch 1) and B (slow): every topological interleaving of (a_len, b_len) in the listed shapes, plus B delivered in reverse (held as orphans)",
             "family_D_shapes": if tier.is_thorough() { json!([[3,8],[3,9],[4,8],[2,6]]) } else { json!([[3,8]]) },
@@ -77,6 +78,21 @@ fn cases(tier: Tier) -> Vec<Case> {
                     }
                 }
             }
+        }
+    }
+    // orphan-subtree family: trees of n blocks whose root (block 1) is the only child of genesis
+    // and arrives LAST, after every permutation of its descendants (all held as orphans under one
+    // missing ancestor: the subtree is a tree, not a line)
+    let n_sub = if tier.is_thorough() { 6 } else { 5 };
+    for pv in parent_vectors(n_sub) {
+        if pv[0] != 0 || pv[1..].iter().any(|p| *p == 0) {
+            continue;
+        }
+        for perm in permutations(n_sub - 1) {
+            // perm over blocks 2..n (indexes 1..n-1), then the root
+            let mut order: Vec<usize> = perm.iter().map(|i| i + 1).collect();
+            order.push(0);
+            out.push(Case { pv: pv.clone(), bad: None, perm: order, dup: 0 });
         }
     }
     out
